@@ -203,6 +203,16 @@ func (vc *FuncVC) bindCallee(st, old *State, sp *FuncSpec, fn *ssa.Function, sig
 				env.vars[name] = TV{T: vc.closureRef(st, cl), Go: t}
 				return
 			}
+			if i == 0 && sp.Kind == "interface" && t != nil {
+				if _, isIface := t.Underlying().(*types.Interface); !isIface {
+					if rt, ok := args[i].(Term); ok && rt.Sort == SRef {
+						if it := vc.ifaceTypeOf(sp); it != nil {
+							env.vars[name] = TV{T: vc.mkIface(IntLit(int64(vc.w.TagOf(t))), rt), Go: it}
+							return
+						}
+					}
+				}
+			}
 			env.vars[name] = env.valueTV(args[i], t)
 		}()
 	}
@@ -513,11 +523,11 @@ func (vc *FuncVC) havocRange(st *State, elem types.Type, s Term, lo, n Term, val
 		same := Eq(Select(Select(nh, r), i), Select(Select(h, r), i))
 		st.assume(Term{fmt.Sprintf("(forall ((r!c Ref) (i!c Int)) (! (=> (not %s) %s) :pattern ((select (select %s r!c) i!c))))", inRange.S, same.S, nh.S), SBool})
 		if val != nil {
-			j := Term{"j!c", SInt}
-			v := val(name, j)
+			base := Add(SOff(s), lo)
+			v := val(name, Sub(i, base))
 			if v != nil {
-				body := Implies(And(Le(IntLit(0), j), Lt(j, n)), Eq(Select(Select(nh, SArr(s)), Add(Add(SOff(s), lo), j)), *v))
-				st.assume(Term{fmt.Sprintf("(forall ((j!c Int)) %s)", body.S), SBool})
+				body := Implies(And(Le(base, i), Lt(i, Add(base, n))), Eq(Select(Select(nh, SArr(s)), i), *v))
+				st.assume(Term{fmt.Sprintf("(forall ((i!c Int)) (! %s :pattern ((select (select %s %s) i!c))))", body.S, nh.S, SArr(s).S), SBool})
 			}
 		}
 		st.setHeap(name, nh)
@@ -571,15 +581,17 @@ func (vc *FuncVC) execAppend(st *State, c *ssa.CallCommon, args []Value, pos tok
 		j := Term{"j!p", SInt}
 		cbody := Implies(And(Not(fits), Le(IntLit(0), j), Lt(j, SLen(s))), Eq(Select(Select(nh, arr), j), Select(Select(h, SArr(s)), Add(SOff(s), j))))
 		st.assume(Term{fmt.Sprintf("(forall ((j!p Int)) (! %s :pattern ((select (select %s %s) j!p))))", cbody.S, nh.S, arr.S), SBool})
-		// 3. the new elements
+		// 3. the new elements (indexed by the destination position, so that the pattern contains no arithmetic)
+		lo := Add(off, SLen(s))
+		k := Sub(i, lo)
 		var src Term
 		if extra.Sort == SStr {
-			src = mk(SInt, "sat", extra, j)
+			src = mk(SInt, "sat", extra, k)
 		} else {
-			src = Select(Select(h, SArr(extra)), Add(SOff(extra), j))
+			src = Select(Select(h, SArr(extra)), Add(SOff(extra), k))
 		}
-		nbody := Implies(And(Le(IntLit(0), j), Lt(j, n)), Eq(Select(Select(nh, arr), Add(Add(off, SLen(s)), j)), src))
-		st.assume(Term{fmt.Sprintf("(forall ((j!p Int)) %s)", nbody.S), SBool})
+		nbody := Implies(And(Le(lo, i), Lt(i, Add(lo, n))), Eq(Select(Select(nh, arr), i), src))
+		st.assume(Term{fmt.Sprintf("(forall ((i!p Int)) (! %s :pattern ((select (select %s %s) i!p))))", nbody.S, nh.S, arr.S), SBool})
 		st.setHeap(name, nh)
 	}
 	return res
